@@ -1,11 +1,12 @@
 """Engine shared by the properties decided on whole conversions: generate cases, run the real
 library and the Lean driver, compare property-specific projections, shrink and report."""
 import json
+import os
 
 import cases as C
 import docx as D
 import shrink
-from common import run_driver
+from common import run_driver, write_replay
 
 
 def norm_messages(ms):
@@ -24,6 +25,8 @@ class ApiRun:
         self.domain_errors = domain_errors
         self.stats = {}
         self.failures = []
+        self.whole = os.environ.get("VERIF_WHOLE", "1") != "0"      # also compare the whole (value, messages) with the model
+        self.whole_breaks = 0
 
     def real(self, case):
         parts, opts = case["parts"], case["options"]
@@ -58,6 +61,16 @@ class ApiRun:
                 pr, pm = self.projector(r, case), self.projector(m, case)
                 if pr != pm:
                     probs.append("observation differs from the specification value: expected %s, got %s" % (json.dumps(pm, ensure_ascii=False)[:600], json.dumps(pr, ensure_ascii=False)[:600]))
+                elif self.whole and (r.get("value"), r.get("messages")) != (m.get("value"), m.get("messages")):
+                    # the property's own observation agrees, but the library no longer computes what the model computes:
+                    # the tie is broken on this input (reported as such, with the input, never as a failing input)
+                    self.whole_breaks += 1
+                    if self.whole_breaks <= 3:
+                        which = "value" if r.get("value") != m.get("value") else "messages"
+                        a, b = (r.get(which), m.get(which))
+                        path = write_replay(self.prop, dict(property=self.prop, kind="correspondence-break", what="convert_to_%s result (%s) differs from the Lean model's on this input; the property's own observation agrees" % (case["options"].get("format", "html"), which),
+                                                            case={"kind": "api", "parts": case["parts"], "options": case["options"]}, expected=b, actual=a))
+                        self.out.correspondence_breaks.append("whole-result correspondence (value, messages) of the conversion with the Lean model broke: %s differs on input %s" % (which, path))
         return probs
 
     def run(self, cs, nontrivial=None):
